@@ -167,6 +167,9 @@ def rand_and(rng, depth=0):
             af.link_filters.add(LinkFilter(rng.choice(["p1", "p2", "p_3", "pX3", "sub/deep", "nowhere"]), neg))
         elif k == "sub" and depth < 2:
             af.or_filters.append(WhereOrFilter([rand_and(rng, depth + 1) for _ in range(rng.randint(1, 2))]))
+    if af == WhereAndFilter():
+        # an empty group is not an expression of the query language (`()` does not parse): every group holds an atom
+        af.areas.add(rng.choice(["work", "shared", "-work"]))
     return af
 
 
